@@ -1,4 +1,5 @@
 import CMacVerif.Lemmas.Worker
+import CMacVerif.Lemmas.WorkerOrder
 import CMacVerif.Lemmas.HydroGraph
 import Mathlib.Tactic.SplitIfs
 /-!
@@ -106,6 +107,17 @@ theorem executed_at_most_once (G : Graph τ ρ) (hG : WF G) (ls : List (Label τ
   have hs := reachable_inv G hG ls hl s h
   intro t ht
   rw [hs.execd t ht]; unfold execdSpec; split <;> omega
+
+/-- **The order in which the sweeps finish is a linear extension of the task graph**: in every
+complete execution (any number of threads, any interleaving) the list of tasks in the order of
+their `finishExec` contains every task exactly once and no task before one of its parents. -/
+theorem finish_order_linear_extension (G : Graph τ ρ) (hG : WF G) (rk : τ → Nat)
+    (hrk : ∀ p ∈ G.univ, ∀ c ∈ G.children p, rk p < rk c) (ls : List (Label τ))
+    (hl : ∀ l ∈ ls, labelTask l ∈ G.univ) (s : WState τ) (h : run G (init G) ls = some s)
+    (h0 : s.num = 0) :
+    (finishOrder ls).Nodup ∧ (∀ t, t ∈ finishOrder ls ↔ t ∈ G.univ) ∧
+      (finishOrder ls).Pairwise (fun a b => b ∉ G.parents a) :=
+  finishOrder_complete G hG ls hl s h (executed_exactly_once G hG rk hrk ls hl s h h0)
 
 /-- the counter protocol: `number_of_tasks` always equals the number of queued + running +
 releasing tasks; in particular it is not 0 while some task is still to be retired -/
@@ -433,6 +445,16 @@ theorem hydro_ordered (L : Layout) (ls : List (Label Task))
   ordered (graph L) (hydro_wf L) s s'
     (reachable_inv (graph L) (hydro_wf L) ls (fun l hl' => (mem_allTasks L _).mpr (hl l hl')) s h)
     t ((mem_allTasks L t).mpr ht) hstep
+
+/-- … and the sweeps finish in an order that is a linear extension of the hydro task graph -/
+theorem hydro_finish_order (L : Layout) (ls : List (Label Task))
+    (hl : ∀ l ∈ ls, exists_ L (labelTask l) = true) (s : WState Task)
+    (h : run (graph L) (init (graph L)) ls = some s) (h0 : s.num = 0) :
+    (finishOrder ls).Nodup ∧ (∀ t, t ∈ finishOrder ls ↔ exists_ L t = true) ∧
+      (finishOrder ls).Pairwise (fun a b => b ∉ parents L a) := by
+  obtain ⟨h1, h2, h3⟩ := finish_order_linear_extension (graph L) (hydro_wf L) (fun t => phase t.slot)
+    (fun p _ c hc => hydro_rank L p c hc) ls (fun l hl' => (mem_allTasks L _).mpr (hl l hl')) s h h0
+  exact ⟨h1, fun t => (h2 t).trans (mem_allTasks L t), h3⟩
 
 /-- two tasks that run at the same time never touch the same subgrid -/
 theorem hydro_conflict_free (L : Layout) (ls : List (Label Task))
